@@ -1,4 +1,5 @@
 import ClusterVerif.Lemmas.C17Step
+import ClusterVerif.Lemmas.C17Fault
 import ClusterVerif.Gen.C17
 
 /-!
@@ -453,5 +454,176 @@ def removeLeaderCase : Case :=
     ops := [.pin 0 (pinCid 1) .ok, .start 1, .add 0 1 .ok, (.ready 1 true true true [(pinCid 1).stored]), .rm 1 0 .ok],
     obs := { members := [{ id := 1, peers := [1], pins := [(pinCid 1).stored], nonvoters := [] }], gone := [] } }
 example : allowed removeLeaderCase = true ∧ holds removeLeaderCase = true := by decide
+
+/-! ## the failure arms: traces of attempts, under ANY oracle (Model/C17Fault.lean) -/
+
+/-- the traced loops compute what the loops compute -/
+theorem traced_loops_agree (self retries : Nat) (att : Attempt) (orc : Nat → Tick) (n pos : Nat) (log : List Entry) :
+    (consLoopT self retries att orc n pos log).1 = consLoop self retries att orc n pos log :=
+  consLoopT_fst self retries att orc n pos log
+
+/-- AddPeer / RmPeer / commit report an error exactly when the caller saw no attempt succeed (no answered forward
+    with a good result, no own Raft call that succeeded) — any oracle, any number of retries -/
+theorem error_iff_no_attempt_succeeded (self retries : Nat) (att : Attempt) (orc : Nat → Tick) (log : List Entry) :
+    (consLoopT self retries att orc (retries + 1) 0 log).1.1 = .err ↔
+      ∀ a ∈ (consLoopT self retries att orc (retries + 1) 0 log).2, a.ackOk = false := by
+  obtain ⟨h1, h2⟩ := consLoopT_trace self retries att orc (retries + 1) 0 log
+  refine ⟨h2, fun hall => ?_⟩
+  cases hr : (consLoopT self retries att orc (retries + 1) 0 log).1.1 with
+  | err => rfl
+  | ok =>
+    obtain ⟨a, ha, hk⟩ := h1 hr
+    rw [hall a ha] at hk; cases hk
+
+/-- an acknowledged call: some attempt was executed by the leader, succeeded there, and its answer arrived -/
+theorem ack_implies_some_attempt_committed (self retries : Nat) (att : Attempt) (orc : Nat → Tick) (log : List Entry)
+    (h : (consLoopT self retries att orc (retries + 1) 0 log).1.1 = .ok) :
+    ∃ a ∈ (consLoopT self retries att orc (retries + 1) 0 log).2, a.answered = true ∧ a.res = .ok := by
+  obtain ⟨a, ha, hk⟩ := (consLoopT_trace self retries att orc (retries + 1) 0 log).1 h
+  refine ⟨a, ha, ?_⟩
+  simpa [Att.ackOk] using hk
+
+/-- a call reported as FAILED in which no reply was lost left the log — hence every member's peerset and pinset — alone -/
+theorem failed_without_lost_reply_unchanged (self retries : Nat) (orc : Nat → Tick) (log : List Entry) (p : Nat) :
+    ((consLoopT self retries (rwAddPeer p) orc (retries + 1) 0 log).1.1 = .err →
+      (∀ a ∈ (consLoopT self retries (rwAddPeer p) orc (retries + 1) 0 log).2, a.executed = true → a.answered = true) →
+      (consAddPeer self retries orc log p).2 = log) ∧
+    ((consLoopT self retries (rwRemovePeer p) orc (retries + 1) 0 log).1.1 = .err →
+      (∀ a ∈ (consLoopT self retries (rwRemovePeer p) orc (retries + 1) 0 log).2, a.executed = true → a.answered = true) →
+      (consRmPeer self retries orc log p).2 = log) := by
+  constructor
+  · intro h1 h2
+    have := consLoopT_no_lost (errEmpty_add p) (retries + 1) 0 log h1 h2
+    rw [consLoopT_fst] at this
+    exact this
+  · intro h1 h2
+    have := consLoopT_no_lost (errEmpty_rm p) (retries + 1) 0 log h1 h2
+    rw [consLoopT_fst] at this
+    exact this
+
+/-- whatever the oracle: an AddPeer leaves the log alone, or — only if the peer was absent — appends ONE AddVoter -/
+theorem add_once_if_absent (self retries : Nat) (orc : Nat → Tick) (log : List Entry) (p : Nat) :
+    (consAddPeer self retries orc log p).2 = log ∨
+    (cfgHas (cfgAt log) p = false ∧ (consAddPeer self retries orc log p).2 = log ++ [.addVoter p]) := by
+  refine consLoop_inv (I := fun l => l = log ∨ (cfgHas (cfgAt log) p = false ∧ l = log ++ [.addVoter p])) ?_ _ _ _ (Or.inl rfl)
+  intro l f hl
+  rcases hl with rfl | ⟨hn, rfl⟩
+  · cases hh : cfgHas (cfgAt l) p with
+    | true => left; rw [rwAddPeer_present hh, List.append_nil]
+    | false =>
+      unfold rwAddPeer
+      simp only [hh, Bool.false_eq_true, if_false]
+      split_ifs
+      · right; exact ⟨trivial, rfl⟩
+      · left; simp
+  · right
+    have : cfgHas (cfgAt (log ++ [.addVoter p])) p = true := by
+      rw [cfgAt_append]; simp only [applyCfg]; rw [cfgHas_cfgPut]; simp
+    rw [rwAddPeer_present this, List.append_nil]
+    exact ⟨hn, rfl⟩
+
+theorem rm_once_if_present (self retries : Nat) (orc : Nat → Tick) (log : List Entry) (p : Nat) :
+    (consRmPeer self retries orc log p).2 = log ∨
+    (cfgHas (cfgAt log) p = true ∧ (consRmPeer self retries orc log p).2 = log ++ [.rmServer p]) := by
+  refine consLoop_inv (I := fun l => l = log ∨ (cfgHas (cfgAt log) p = true ∧ l = log ++ [.rmServer p])) ?_ _ _ _ (Or.inl rfl)
+  intro l f hl
+  rcases hl with rfl | ⟨hn, rfl⟩
+  · cases hh : cfgHas (cfgAt l) p with
+    | false => left; rw [rwRemovePeer_absent hh, List.append_nil]
+    | true =>
+      unfold rwRemovePeer
+      simp only [hh, Bool.not_true, Bool.false_eq_true, if_false]
+      split_ifs
+      · left; simp
+      · right; exact ⟨trivial, rfl⟩
+      · left; simp
+  · right
+    have : cfgHas (cfgAt (log ++ [.rmServer p])) p = false := by
+      rw [cfgAt_append]; simp only [applyCfg]; rw [cfgHas_cfgErase]; simp
+    rw [rwRemovePeer_absent this, List.append_nil]
+    exact ⟨hn, rfl⟩
+
+/-- an acknowledged AddPeer / RmPeer is committed: the peer is in / out of the configuration of the (single) log, and
+    the log is either untouched (the peer was already there / already gone) or one entry longer — any oracle -/
+theorem ack_implies_committed (self retries : Nat) (orc : Nat → Tick) (log : List Entry) (p : Nat) :
+    ((consAddPeer self retries orc log p).1 = .ok →
+      cfgHas (cfgAt (consAddPeer self retries orc log p).2) p = true ∧
+      ((cfgHas (cfgAt log) p = true ∧ (consAddPeer self retries orc log p).2 = log) ∨
+       (cfgHas (cfgAt log) p = false ∧ (consAddPeer self retries orc log p).2 = log ++ [.addVoter p]))) ∧
+    ((consRmPeer self retries orc log p).1 = .ok →
+      cfgHas (cfgAt (consRmPeer self retries orc log p).2) p = false ∧
+      ((cfgHas (cfgAt log) p = false ∧ (consRmPeer self retries orc log p).2 = log) ∨
+       (cfgHas (cfgAt log) p = true ∧ (consRmPeer self retries orc log p).2 = log ++ [.rmServer p]))) := by
+  constructor
+  · intro h
+    have he := add_effect self retries orc log p h
+    refine ⟨he, ?_⟩
+    rcases add_once_if_absent self retries orc log p with h1 | h1
+    · left; rw [h1] at he; exact ⟨he, h1⟩
+    · right; exact h1
+  · intro h
+    have he := rm_effect self retries orc log p h
+    refine ⟨he, ?_⟩
+    rcases rm_once_if_present self retries orc log p with h1 | h1
+    · left; rw [h1] at he; exact ⟨he, h1⟩
+    · right; exact h1
+
+/-- idempotence under retries: a follower's AddPeer whose forward is answered at least once within its
+    `commit_retries + 1` attempts is acknowledged — however many earlier forwards were refused, or were EXECUTED with the
+    answer lost — and the peer was added at most once (`add_once_if_absent`). In particular a retried AddPeer whose
+    first attempt committed but whose answer was lost does not report failure. -/
+theorem lost_reply_retry_acks (self lead retries : Nat) (orc : Nat → Tick) (log : List Entry) (p : Nat)
+    (hl : ∀ k, (orc k).leader = some lead) (hne : lead ≠ self) (h : ∃ i, i ≤ retries ∧ (orc i).ok = true) :
+    (consAddPeer self retries orc log p).1 = .ok ∧ cfgHas (cfgAt (consAddPeer self retries orc log p).2) p = true := by
+  have hok : (consAddPeer self retries orc log p).1 = .ok :=
+    consLoop_answered (good_add_any p) hl trivial (by simpa using hne) h
+  exact ⟨hok, add_effect self retries orc log p hok⟩
+
+/-- the first forward commits and its answer is lost; the retry is answered: acknowledged, ONE entry -/
+example : consAddPeer 1 1 (planOrc 0 [.l]) [.boot [0, 1, 2]] 3 = (.ok, [.boot [0, 1, 2], .addVoter 3]) := by decide
+/-- … with `commit_retries = 0` there is no retry: reported as failed, yet in the single log (visible on all, not split) -/
+example : consAddPeer 1 0 (planOrc 0 [.l]) [.boot [0, 1, 2]] 3 = (.err, [.boot [0, 1, 2], .addVoter 3]) := by decide
+/-- every forward refused: failed, nothing happened; three forwards for `commit_retries = 2` -/
+example : (consLoopT 1 2 (rwAddPeer 3) (planOrc 0 [.f, .f, .f, .f]) 3 0 [.boot [0, 1, 2]]).1 = (.err, [.boot [0, 1, 2]]) ∧
+    fwdCount (consLoopT 1 2 (rwAddPeer 3) (planOrc 0 [.f, .f, .f, .f]) 3 0 [.boot [0, 1, 2]]).2 = 3 := by decide
+
+/-! ## concurrent issue: the single log linearises membership changes and pins -/
+
+/-- Whatever order Raft gave to the acknowledged configuration entries and pin entries issued concurrently — `log` is
+    ANY list of entries, in particular any interleaving of two sequences — two members that applied the same index
+    report the same peerset and the same pinset; and for every interleaving all caught-up members report the
+    configuration and the pinset of that one log. -/
+theorem interleaved_log_agree (log : List Entry) (m1 m2 : Member)
+    (hh : m1.have_ = m2.have_) (ha : m1.applied = m2.applied) :
+    m1.peers log = m2.peers log ∧ m1.pins log = m2.pins log := by
+  unfold Member.peers Member.cfg Member.pins
+  rw [hh, ha]
+  exact ⟨rfl, rfl⟩
+
+/-- pins do not disturb the configuration and configuration entries do not disturb the pinset: in any interleaving
+    the peerset is the replay of the configuration entries alone and the pinset the replay of the pin entries alone -/
+theorem interleaving_projections (log : List Entry) :
+    cfgAt log = cfgAt (log.filter (fun e => !e.isPinOp)) ∧ pinsAt log = pinsAt (log.filter (fun e => e.isPinOp)) := by
+  unfold cfgAt pinsAt
+  constructor
+  · generalize ([] : Config) = c
+    induction log generalizing c with
+    | nil => rfl
+    | cons e rest ih =>
+      cases he : e.isPinOp with
+      | true => simp only [List.foldl_cons, List.filter_cons, he, Bool.not_true, Bool.false_eq_true, if_false]
+                rw [applyCfg_of_pinOp he]; exact ih c
+      | false => simp only [List.foldl_cons, List.filter_cons, he, Bool.not_false, if_true]; exact ih _
+  · generalize ([] : PinMap) = c
+    induction log generalizing c with
+    | nil => rfl
+    | cons e rest ih =>
+      cases he : e.isPinOp with
+      | false => simp only [List.foldl_cons, List.filter_cons, he, Bool.false_eq_true, if_false]
+                 rw [applyPin_of_not_pinOp he]; exact ih c
+      | true => simp only [List.foldl_cons, List.filter_cons, he, if_true]; exact ih _
+
+example : cfgIds (cfgAt [.boot [0, 1], .pin (pinCid 1), .addVoter 2, .pin (pinCid 2), .rmServer 0]) = [1, 2] ∧
+    cfgIds (cfgAt [.boot [0, 1], .addVoter 2, .rmServer 0, .pin (pinCid 1), .pin (pinCid 2)]) = [1, 2] := by decide
 
 end CV.C17
